@@ -35,6 +35,32 @@ void harness(void)
     int want = ref_domain(s, n, US);
     VF_ASSERT(rc <= 0, "domain validator returns 0 or a negative code");
     VF_ASSERT((rc == 0) == (want != 0), "C04: host name accepted iff labels/hyphen/length/numeric rules hold");
+#ifdef VF_CHECK_CODES
+    {
+        int bad = 0, alldig = 1, edge = 0, dd = 0, longlab = 0;
+        unsigned lab = 0, m = (n >= 2 && s[n - 1] == '.') ? n - 1 : n;
+        for (unsigned i = 0; i < VF_N; i++) {
+            if (i >= m) break;
+            unsigned ch = s[i];
+            if (!(ref_ld(ch, US) || ch == '-' || ch == '.')) bad = 1;
+            if (!((ch >= '0' && ch <= '9') || ch == '.')) alldig = 0;
+            if (ch == '-' && (i == 0 || s[i - 1] == '.' || i + 1 == m || s[i + 1] == '.')) edge = 1;
+            if (ch == '.' && (i == 0 || s[i - 1] == '.' || i + 1 == m)) dd = 1;
+            if (ch == '.') lab = 0; else if (++lab > 63) longlab = 1;
+        }
+        if (m == 1 && s[0] == '.') dd = 1;
+        VF_ASSERT((rc == -EEAV_DOMAIN_EMPTY) == (n == 0), "C15: 'domain is empty' iff it is empty");
+        VF_ASSERT(rc != -EEAV_DOMAIN_INVALID_CHAR || bad, "C15: 'invalid characters' only if a byte outside letters, digits, hyphen, dot is present");
+        VF_ASSERT(rc != -EEAV_DOMAIN_NUMERIC || alldig, "C15: 'all-numeric' only if the name is digits and dots");
+        VF_ASSERT(rc != -EEAV_DOMAIN_MISPLACED_HYPHEN || edge, "C15: 'misplaced hyphen' only if a hyphen sits at a label edge");
+        VF_ASSERT(rc != -EEAV_DOMAIN_MISPLACED_DELIMITER || dd, "C15: 'misplaced delimiter' only for a leading, doubled or dangling dot");
+        VF_ASSERT(rc != -EEAV_DOMAIN_LABEL_TOO_LONG || longlab, "C15: 'label is too long' only if a label exceeds 63");
+        VF_ASSERT(rc != -EEAV_DOMAIN_TOO_LONG || m > 253, "C15: 'domain is too long' only above 253 characters");
+        VF_ASSERT(rc == 0 || (rc <= -EEAV_DOMAIN_EMPTY && rc >= -EEAV_DOMAIN_NUMERIC), "C15: the host-name validator reports only host-name codes");
+        VF_COVER(rc == -EEAV_DOMAIN_MISPLACED_DELIMITER, "code-delimiter");
+        VF_COVER(rc == -EEAV_DOMAIN_INVALID_CHAR, "code-invalid-char");
+    }
+#endif
     VF_COVER(rc == 0 && n >= 4 && s[n - 1] == '.', "accepted-root-dot");
     VF_COVER(rc == 0 && n >= 5 && s[1] == '-', "accepted-hyphen");
     VF_COVER(rc == -EEAV_DOMAIN_NUMERIC, "numeric");
